@@ -76,7 +76,8 @@ Par(name, type) == [name |-> name, type |-> type]
 \* res: explicit result kinds (family Q) or <<>>; va: variadic last parameter
 Inj(name, params, out, cl, er, items) ==
   [name |-> name, pkg |-> "a", params |-> params, va |-> FALSE, out |-> out,
-   cl |-> cl, er |-> er, res |-> <<>>, items |-> items, file |-> 1]      \* file: which injector file of the package declares it
+   cl |-> cl, er |-> er, res |-> <<>>, items |-> items, file |-> 1,       \* file: which injector file of the package declares it
+   form |-> "func"]       \* "func" | "generic" (the template has a type parameter) | "method" (the template is a method): undocumented shapes
 
 Prog(key, fam, atoms, leaves, sets, injs) ==
   [key |-> key, fam |-> fam, atoms |-> atoms, leaves |-> leaves, sets |-> sets, injs |-> injs]
